@@ -57,7 +57,7 @@ def parseDecl (t : String) : Option CDecl :=
 
 def mkConn (C : Consts) (d : CDecl) : Conn :=
   { id := d.id, rx := Rx.init C, net := net0, calls := d.descs, out := [], wfail := d.wfail, nwrites := 0, credit := d.credit,
-    good := d.good, frames := [], descs := d.descs, fut := [], k := 0 }
+    good := d.good, frames := [], descs := d.descs, fut := [], k := 0, granted := d.credit, used := 0 }
 
 def parseEv (C : Consts) (decls : List CDecl) (t : String) : Option Srv.Ev :=
   match t.toList with
